@@ -99,8 +99,9 @@ pub struct Analyzer<'a> {
   pub mixed: bool,
   /// some build of the history aborted
   pub post_abort: bool,
-  /// some task currently lacks a completed output because of an abort
   pub n_steps: usize,
+  /// M2 state at the start of the last bottom-up build (after the session's leading top-down requires)
+  pub bu_snapshot: Option<(Vec<Shadow>, [Cell; MAX_RES], [bool; MAX_RES])>,
 }
 
 struct Session<'s> {
@@ -152,7 +153,7 @@ impl<'a> Analyzer<'a> {
     Analyzer {
       prog, class, prop,
       sh: vec![Shadow::default(); prog.n_tasks()],
-      dirty: 0, mixed: false, post_abort: false, n_steps: 0,
+      dirty: 0, mixed: false, post_abort: false, n_steps: 0, bu_snapshot: None,
     }
   }
 
@@ -208,6 +209,38 @@ impl<'a> Analyzer<'a> {
       }
     }
     true
+  }
+
+  /// Key predicate of finding F1 (`C03/stale-before-bottom-up`): at the start of the last bottom-up build, task `x`
+  /// (itself or through its recorded requires) already had a dependency that its checker rejects and that is NOT a
+  /// dependency on a reported resource: a require stamp that disagrees with the callee's cached output, a read or
+  /// write stamp on an unreported resource, or no completed output at all (aborted execution). Only an earlier
+  /// top-down (or aborted) build can produce this; the bottom-up build looks at reported resources only.
+  pub fn stale_before_bottom_up(&self, x: Tid, reported: u8) -> bool {
+    let Some((sh, cells, fail)) = &self.bu_snapshot else { return false; };
+    let mut seen: u32 = 1 << x;
+    let mut stack = vec![x];
+    while let Some(t) = stack.pop() {
+      let s = &sh[t as usize];
+      if s.known && s.output.is_none() { return true; }
+      for d in dedup_per_target(&s.deps) {
+        match d {
+          Dep::Req(u, oc, stamp) => {
+            match sh[u as usize].output {
+              Some(out) => { if !oc.consistent(out, stamp) { return true; } }
+              None => return true,
+            }
+            if seen & (1 << u) == 0 { seen |= 1 << u; stack.push(u); }
+          }
+          Dep::Read(r, rc, stamp) | Dep::Write(r, rc, stamp) => {
+            if reported & (1 << r) != 0 { continue; }
+            if rc == RC::Faulty && fail[r as usize] { return true; }
+            if rc.stamp_of(cells[r as usize]) != stamp { return true; }
+          }
+        }
+      }
+    }
+    false
   }
 
   /// Bytes of the scope bookkeeping that decides which events are in scope (part of the state identity).
@@ -317,7 +350,11 @@ impl<'a> Analyzer<'a> {
       Ev::T(t) => self.on_tracker(s, t),
       Ev::RootReq(t) => { self.sh[*t as usize].known = true; }
       Ev::RootRet(..) => {}
-      Ev::BottomUpStart => { s.in_bu = true; s.bu_seen = true; }
+      Ev::BottomUpStart => {
+        s.in_bu = true;
+        s.bu_seen = true;
+        self.bu_snapshot = Some((self.sh.clone(), s.cells, s.fail));
+      }
       Ev::BottomUpSchedule(_) | Ev::BottomUpUpdate => {}
       Ev::BottomUpDone => { s.in_bu = false; }
       Ev::Enter(t) => {
